@@ -250,7 +250,7 @@ def locate_item(file, text, kind, name):
     attributes-less item text through closing brace or semicolon."""
     masked = mask(text)
     tests = test_mod_ranges(text, masked)
-    for m in re.finditer(r'(?m)^[ \t]*(?:pub(?:\([^)]*\))?\s+)?' + kind + r'\s+' + re.escape(name) + r'\b', masked):
+    for m in re.finditer(r'(?m)^[ \t]*(?:pub(?:\([^)]*\))?\s+)?' + kind + r'\s+' + re.escape(name) + (r'\b(?!\s*<)' if kind == 'impl' else r'\b'), masked):
         if any(a <= m.start() <= b for a, b in tests):
             continue
         # find terminator: `;` or `{..}` whichever first at depth 0
